@@ -195,6 +195,11 @@ class Sandbox:
             self._stop_mocking(context)
             self._capture_exception(system_exit, sys.exc_info(),
                                     code, filename)
+        except BaseException:
+            # KeyboardInterrupt, GeneratorExit and other non-Exception classes are not ours to
+            # handle, but what we patched still has to be put back before they travel on
+            self._stop_mocking(context)
+            raise
         else:
             self._stop_mocking(context)
 
